@@ -21,10 +21,10 @@ HRPS = ['bc', 'tb', 'bcrt', 'x', 'a1z']
 
 def bounds(tier):
     return dict(step='all 30-bit states and 5-bit values', detect='data-part lengths 39 and 59 (P2WPKH/P2WSH): every position set of size 1, 2%s; '
-                'error values symbolic (all 31^k non-zero patterns per set)' % ('' if tier == 'quick' else ', 3 and 4 (size 4: all sets at length 39; at length 59 every 23rd set in lexicographic order)'),
+                'error values symbolic (all 31^k non-zero patterns per set)' % ('' if tier == 'quick' else ', 3 (all sets at lengths 39 and 59) and 4 (length 39, every 10th set in lexicographic order)'),
                 codec='hrp in %s, versions 0..16, program lengths 2..40, all program bytes symbolic' % HRPS,
                 accept='all strings of length 8..%d over all code points under each of bc/tb/bcrt; address-length strings with symbolic data part'
-                       % (12 if tier == 'quick' else 16))
+                       % 12)
 
 
 def _lifted(ctx):
@@ -238,15 +238,15 @@ def instances(tier):
     # error detection by position sets
     plan = [(39, 'bc', 1), (39, 'bc', 2), (59, 'bc', 1), (59, 'bc', 2), (39, 'tb', 2), (59, 'bcrt', 2)]
     if tier != 'quick':
-        plan += [(39, 'bc', 3), (59, 'bc', 3), (59, 'tb', 3), (39, 'bc', 4), (39, 'bcrt', 3)]
+        plan += [(39, 'bc', 3), (59, 'bc', 3)]
     for n, hrp, k in plan:
         sets = [list(c) for c in itertools.combinations(range(n), k)]
         for ch in _chunks(sets, 400):
             out.append(dict(h='detect_batch', p=dict(n=n, hrp=hrp, sets=ch), witness_every=0, keep_witnesses=0, max_seconds=3000))
     if tier != 'quick':
-        sets = [list(c) for c in itertools.islice(itertools.combinations(range(59), 4), 0, None, 23)]
+        sets = [list(c) for c in itertools.islice(itertools.combinations(range(39), 4), 0, None, 10)]
         for ch in _chunks(sets, 400):
-            out.append(dict(h='detect_batch', p=dict(n=59, hrp='bc', sets=ch), witness_every=0, keep_witnesses=0, max_seconds=3000))
+            out.append(dict(h='detect_batch', p=dict(n=39, hrp='bc', sets=ch), witness_every=0, keep_witnesses=0, max_seconds=3000))
     for pos in ([0], [3, 9], [1, 2, 11], [0, 5, 6, 12]):
         out.append(dict(h='detect_e2e', p=dict(hrp='bc', plen=4, positions=pos), max_seconds=900))
     # codec
@@ -259,7 +259,7 @@ def instances(tier):
     for plen in (2, 19, 21, 33, 40):
         out.append(dict(h='codec', p=dict(hrp='bc', ver=0, plen=plen)))
     for hrp in ('bc', 'tb', 'bcrt'):
-        for n in range(8, (12 if tier == 'quick' else 16) + 1):
+        for n in range(8, 12 + 1):
             if n >= len(hrp) + 7:
                 out.append(dict(h='accept', p=dict(hrp=hrp, n=n), max_seconds=1500))
     for hrp, nd in (('bc', 39), ('tb', 39), ('bc', 59), ('bcrt', 59), ('bc', 38), ('bc', 40), ('tb', 58), ('bc', 60), ('bc', 10), ('bc', 70), ('bc', 88)):
